@@ -192,7 +192,7 @@ func VerifRecursiveWriteFaults() {
 		materialise(root, p)
 		lnk, _, err = builder.BuildUnixFSRecursive(p, ls)
 	} else {
-		m := &modelFS{root: root, byPath: map[string]*fsNode{}, files: map[*os.File]*bytes.Reader{}, opens: map[string]int{}, readdir: map[string]int{}}
+		m := &modelFS{root: root, byPath: map[string]*fsNode{}, files: map[*os.File]*bytes.Reader{}, dirs: map[*os.File]*[]fs.DirEntry{}, opens: map[string]int{}, readdir: map[string]int{}}
 		m.index(root, "/t/r")
 		m.install()
 		lnk, _, err = builder.BuildUnixFSRecursive("/t/r", ls)
